@@ -565,3 +565,47 @@ Theorem oracle_accepts_model_e fuel e marker uv c mode ld period now tok :
   start_ok marker uv c mode period now tok (token_created r) (fs_changed r)
            (spawned_e fuel e marker uv c mode ld period now tok) = true.
 Proof. cbn zeta. rewrite spawned_e_eq, program_run_eq. apply oracle_accepts_model. Qed.
+
+(* ------------------------------------------------------ which directory *)
+
+(* no TelemetryDir in the configuration and no user configuration directory:
+   whatever the mode files lying around say, nothing is started (any marker,
+   any entry point, any depth) ... *)
+Theorem no_directory_no_launch fuel e marker uv c mode ld period now tok :
+  spawned_env fuel e false false marker uv c mode ld period now tok = [].
+Proof.
+  unfold spawned_env, dir_known, effective_mode. cbn [orb].
+  rewrite spawned_e_eq. apply off_inert_no_launch.
+Qed.
+
+(* ... the application only asks for the mode ... *)
+Theorem no_directory_app e uv c mode ld period now tok :
+  program_run_env e false false [] uv c mode ld period now tok = mkR OReturned [EReadMode] tok.
+Proof.
+  unfold program_run_env, dir_known, effective_mode. cbn [orb]. rewrite program_run_eq. reflexivity.
+Qed.
+
+(* ... and no process other than one that already is a sidecar writes or execs *)
+Theorem no_directory_effects e marker uv c mode ld period now tok : marker <> lit_1 ->
+  forall x, In x (r_effects (program_run_env e false false marker uv c mode ld period now tok)) ->
+    is_write x = false /\ is_exec x = false.
+Proof.
+  unfold program_run_env, dir_known, effective_mode. cbn [orb]. rewrite program_run_eq.
+  apply off_inert_effects.
+Qed.
+
+(* with a directory, the mode read from it decides, as before *)
+Theorem known_directory_run e a b marker uv c mode ld period now tok : dir_known a b = true ->
+  program_run_env e a b marker uv c mode ld period now tok = start_run marker uv c mode ld period now tok /\
+  spawned_env 4 e a b marker uv c mode ld period now tok = spawned 4 marker uv c mode ld period now tok.
+Proof.
+  intros K. unfold program_run_env, spawned_env, effective_mode. rewrite K.
+  split; [apply program_run_eq | apply spawned_e_eq].
+Qed.
+
+Theorem oracle_accepts_model_env fuel e a b marker uv c mode ld period now tok :
+  let m := effective_mode (dir_known a b) mode in
+  let r := program_run_env e a b marker uv c mode ld period now tok in
+  start_ok marker uv c m period now tok (token_created r) (fs_changed r)
+           (spawned_env fuel e a b marker uv c mode ld period now tok) = true.
+Proof. cbn zeta. unfold program_run_env, spawned_env. apply oracle_accepts_model_e. Qed.
